@@ -106,6 +106,9 @@ def scen_push_zip(cfg):
         snd = asyncsym.mk_node(V, rec, "snd", 20)
         rcv = asyncsym.mk_node(V, rec, "rcv", 10)
         c = asyncsym.mk_conn(V, rec, snd, rcv, blocking=cfg["blocking"])
+        if cfg.get("state") == "ready":  # the sender was started before the receiver: the connection is reset but not yet started
+            from rex.constants import Async
+            c._state = Async.READY
         # two announced arrivals (as push_ts_input leaves them): recv on grid, delay = recv - sent
         sent = [V.real(f"sent{i}", lo=0) for i in range(2)]
         recv = [V.grid(f"recv{i}", lo=0) for i in range(2)]
@@ -113,11 +116,16 @@ def scen_push_zip(cfg):
         for i in range(2):
             c.q_zip_delay.append(recv[i] - sent[i])
         c.push_input(("msg", 7), base.Header(eps=0, seq=7, ts=sent[0]))
+        accepted = ("a payload of the current episode is accepted, also by a connection that is reset but not yet started (its announced arrival was accepted "
+                    "in that state too; dropping the payload would pair every later payload with an earlier message's receive time)")
+        if len(c.q_msgs) == 0 and len(c.q_zip_msgs) == 0:
+            return {accepted: False}
         ok_first = len(c.q_msgs) == 1 and len(c.q_zip_delay) == 1
         r0 = c.q_msgs[0][0]
         c.push_input(("msg", 8), base.Header(eps=0, seq=8, ts=sent[1]))
         r1 = c.q_msgs[1][0]
         return {
+            accepted: True,
             "k-th message is paired with the k-th announced delay (FIFO)": _allv(V, [ok_first, len(c.q_msgs) == 2, len(c.q_zip_delay) == 0, c.q_msgs[0][1] == ("msg", 7), c.q_msgs[1][1] == ("msg", 8)]),
             "recorded ts_recv == the receive time announced for that message": _allv(V, [_close(V, r0.ts_recv, recv[0]), _close(V, r1.ts_recv, recv[1])]),
             "recorded seq_out / ts_sent are the sender's": _allv(V, [r0.seq_out == 7, r1.seq_out == 8, _close(V, r0.ts_sent, sent[0]), _close(V, r1.ts_sent, sent[1])]),
@@ -441,6 +449,7 @@ def configs(tier):
     out.append(dict(scen="push_ts_input", nq=1, blocking=False, eps=1))
     out += [dict(scen="push_ts_input", nq=0, blocking=b, eps=0, state="ready") for b in (False, True)]
     out += [dict(scen="push_zip", blocking=b) for b in (False, True)]
+    out += [dict(scen="push_zip", blocking=b, state="ready") for b in (False, True)]
     for nq in ([1, 3] if not th else [1, 2, 3, 4]):
         for skip in (False, True):
             for jitter in ("latest", "buffer"):
